@@ -169,7 +169,6 @@ def run(ctx: Context) -> None:
             if pos is not None:
                 lo = mcb.stmt('$lo = int($pos[0])', within=inner) or mcb.stmt('$lo = $pos[0]', within=inner)
                 pos_form = lo is not None
-        ctx.check('R08.3', lo is not None, "lower bound = position of the first True", cb, lo or cb.node, construct='lower = next(i for i, v in enumerate(occupied) if v)')
         hi = None
         if vs is not None:
             for alt in ('$hi = next(len($occ) - $j for $j, $w in enumerate(reversed($occ)) if $w)',
@@ -178,9 +177,28 @@ def run(ctx: Context) -> None:
                 hi = hi or mcb.stmt(alt, within=inner)
             if pos_form:
                 hi = mcb.stmt('$hi = int($pos[-1]) + 1', within=inner) or mcb.stmt('$hi = $pos[-1] + 1', within=inner) or mcb.stmt('$hi = int($pos[-1] + 1)', within=inner)
+        sl = mcb.stmt('$bounds[$dim] = slice($lo, $hi)', within=inner) if lo is not None and hi is not None else None
+        if sl is None and vs is not None:
+            # the same two bounds under other names, or written straight into the slice: compared with the locals spelled out
+            from .common import expand_locals as _x8
+            occ = mcb.name('occ')
+            srcs = (occ, f"{occ}.values")
+            lows = {f"{w}numpy.flatnonzero({o})[0]{c}" for o in srcs for w, c in (('int(', ')'), ('', ''))}
+            highs = {f"{w}numpy.flatnonzero({o})[-1]{c} + 1" for o in srcs for w, c in (('int(', ')'), ('', ''))} | {f"int(numpy.flatnonzero({o})[-1] + 1)" for o in srcs}
+            for n in ast.walk(inner):
+                if isinstance(n, ast.Assign) and isinstance(n.targets[0], ast.Subscript) and isinstance(n.value, ast.Call) and dotted(n.value.func) == 'slice' \
+                        and len(n.value.args) == 2 and not n.value.keywords and isinstance(n.targets[0].value, ast.Name) and norm_text(n.targets[0].slice) == mcb.name('dim'):
+                    a_, b_ = (norm_text(_x8(cflow, x, keep=[occ])) for x in n.value.args)
+                    if a_ in lows:
+                        lo = lo or n
+                    if b_ in highs:
+                        hi = hi or n
+                    if a_ in lows and b_ in highs:
+                        sl = n
+                        mcb.bind['bounds'] = n.targets[0].value.id
+        ctx.check('R08.3', lo is not None, "lower bound = position of the first True", cb, lo or cb.node, construct='lower = next(i for i, v in enumerate(occupied) if v)')
         ctx.check('R08.3', hi is not None, "upper bound = (position of the last True) + 1 = len - (position from the end)", cb, hi or cb.node,
                   construct='upper = next(len(occupied) - i for i, v in enumerate(reversed(occupied)) if v)')
-        sl = mcb.stmt('$bounds[$dim] = slice($lo, $hi)', within=inner) if lo is not None and hi is not None else None
         ok = sl is not None and bool(cb.returns()) and all(isinstance(r.value, ast.Name) and r.value.id == mcb.name('bounds') for r in cb.returns())
         ctx.check('R08.3', ok, "the window is slice(lower, upper) for that dimension", cb, sl or cb.node, construct='bounds[dimension] = slice(lower, upper)')
 
